@@ -2,8 +2,8 @@ import UtilModel.Model.GoJson
 /-!
 # Lemmas about the streaming tokenizer model (`GoJson.tokenF`)
 -/
-namespace U.GoJson
-open U
+namespace U.JsonTokens
+open U U.GoJson
 
 theorem scanScalar_not_delim {s : Bytes} {tok : Tok} {r : Bytes}
     (h : scanScalar s = .ok (tok, r)) : ∀ c, tok ≠ .delim c := by
@@ -591,4 +591,4 @@ theorem token_top {d : Dec} {tok : Tok} {d' : Dec} (hst : d.st = .topValue)
   subst hst
   exact tokenF_topValue' h
 
-end U.GoJson
+end U.JsonTokens
